@@ -25,6 +25,9 @@ type Reader struct {
 	FailErr error                   // error returned at FailAt
 	DelayAt map[int64]time.Duration // delay before serving the read that starts at this offset
 	OnRead  func(off int64, n int)  // called after every successful Read
+	// EagerEOF makes the Read that serves the last byte return (n, io.EOF) together, as
+	// io.Reader allows and HTTP bodies with a known length do.
+	EagerEOF bool
 
 	bytes   atomic.Int64
 	calls   atomic.Int64
@@ -67,6 +70,10 @@ func (r *Reader) Read(p []byte) (int, error) {
 	r.bytes.Add(int64(n))
 	if r.OnRead != nil {
 		r.OnRead(pos, n)
+	}
+	if r.EagerEOF && pos+int64(n) >= int64(len(r.data)) {
+		r.eofCall.CompareAndSwap(0, call)
+		return n, io.EOF
 	}
 	return n, nil
 }
